@@ -187,9 +187,7 @@ def wf_ok(ctx, y, what, case, be, sig=None):
 # prune_distal_to / prune_proximal_to (method forms)
 # ------------------------------------------------------------------------------------------------
 def _sig_prune(case):
-    nodes = case['nodes']
-    if any(isinstance(n, str) for n in nodes) and any(not isinstance(n, str) for n in nodes) and case.get('form') != 'array':
-        return 'prune_to/mixed-id-and-tag-list/ids-become-strings'
+    # (a list mixing ids and tags used to turn the ids into strings: repaired in navis, no signature any more)
     return None
 
 
@@ -385,8 +383,7 @@ def wu(s):
 
 
 def _sig_reroot(case, be):
-    if any(isinstance(t, str) for t in case['targets']):
-        return 'reroot/tag-target/string-array'
+    # (rerooting by tag used to fail always: repaired in navis, no signature any more)
     if be == 'networkx' and any(r['id'] == 0 for r in case['rows']):
         return 'reroot/networkx/node-id-0'
     return None
@@ -472,8 +469,7 @@ FORMS = ['list', 'tuple', 'set', 'array', 'series', 'mask', 'mask_list', 'graph'
 
 
 def _sig_subset(case):
-    if case.get('pf') and case['form'] in ('mask', 'mask_list'):
-        return 'subset_neuron/boolean-mask+prevent_fragments'
+    # (a boolean mask together with prevent_fragments used to raise: repaired in navis, no signature any more)
     return None
 
 
@@ -540,7 +536,11 @@ def case_subsetx(ctx, case, be=None):
     if inplace:
         ctx.oracle(y is work or case.get('via') == 'neuronlist', 'subset_neuron(inplace=True) did not return its input', case)
     ks = where_wire(keep_eff)
-    if pf:
+    if pf and form in ('mask', 'mask_list'):
+        # the mask is translated into the ids it marks before the connecting nodes are looked for
+        m = ''.join('1' if int(i) in set(keep) else '0' for i in x.nodes.node_id.values)
+        model = ctx.ask(f"c10x.subsetn pfmask {int(kd)} {m} | {wire}")
+    elif pf:
         model = ctx.ask(f"c10x.subsetn pf {int(kd)} {ks} | {wire}")
         # the roots of the result are determined by the kept set only when it has one top node per tree (always, by
         # `prevent_fragments_connected`); compare the whole neuron
